@@ -483,6 +483,20 @@ Proof.
   intro H. cbn in H. inversion H as [|x l _ H2]. inversion H2 as [|y l2 Hn _]. apply Hn. right. left. reflexivity.
 Qed.
 
+(** (1) also refuted for crash points of the run when the re-run comes BEFORE the dead process's lock
+    expires (the known finding C10-stale-lock-after-crash): killed after the first statement at
+    time 0 with a timeout of 3600000, re-run at 1000: refused, nothing changes, the migration is not completed. *)
+Theorem C10_lock_rerun_stale_refuted :
+  exists now timeout pt k g n dir (d0 : db bytes) now' s1,
+  locked_apply bytes bytes_eqb (fun b => b) now timeout (CAt pt k) g n dir (None, d0) = (CCrashed, s1) /\
+  (now < now')%N /\
+  locked_apply bytes bytes_eqb (fun b => b) now' timeout CNo g n dir s1 = (CLockTaken, s1) /\
+  d_journal (snd s1) = [s 1].
+Proof.
+  exists 0%N, 3600000%N, AfterExec, 1, TxNone, 0, ex_dir, ex_db0, 1000%N.
+  eexists. split; [vm_compute; reflexivity|]. split; [reflexivity|]. split; vm_compute; reflexivity.
+Qed.
+Print Assumptions C10_lock_rerun_stale_refuted.
 Print Assumptions C10_lock_excludes_while_valid.
 Print Assumptions C10_lock_refused_changes_nothing.
 Print Assumptions C10_lock_released_on_every_exit.
